@@ -108,7 +108,7 @@ add(
     H("b_skip_number_w30", "main", ["C02", "C14", "C08"], ["Parser::do_skip_number (32-byte block path, is_float carry, exponent inside a block)", "i8x32::{gt,bitmask}"],
       "66-byte buffer of digits with a 6-byte symbolic window at 30..36 (lanes 28..31 of the first chunk and 0..1 of the next) and a comma at 44",
       stubs=[CUT_SYNTAX], cost=185, exp_gb=8, mem_gb=20,
-      unwindset=[("ref_number_end", None, 48), ("windowed", None, 8), ("::do_skip_number", -1, 14), ("::do_skip_number", -2, 14), ("::skip_exponent", None, 16)]),
+      unwindset=[("ref_number_end", None, 48), ("windowed", None, 8), ("::do_skip_number", -1, 14, False), ("::do_skip_number", -2, 14, False), ("::skip_exponent", None, 16)]),
     H("b_skip_string_w29", "main", ["C02", "C14", "C09"], ["Parser::skip_string (32-byte block path + tail)", "Parser::skip_escaped_chars", "u8x32::{eq,le,bitmask}"],
       "38-byte buffer: neutral 'x' except a 6-byte symbolic window at 29..35 (across the block edge) and a closing quote at 36",
       stubs=[CUT_SYNTAX, MAXEPU8], tier=T, cost=520, exp_gb=8, mem_gb=20,
@@ -139,8 +139,10 @@ add(
       "every buffer of length <= 6 x index 0..=3 x every E", stubs=[CUT_SYNTAX, M_WS, M_ONE, CUT_PIT], cost=240),
     H("m_get_array_checked_n7", "main", ["C10", "C14"], ["Parser::get_from_array_checked", "Parser::skip_space_peek"],
       "every buffer of length <= 7 x index 0..=3 x every E", stubs=[CUT_SYNTAX, M_WS, M_ONE, CUT_PIT], tier=T, cost=280),
+    H("m_get_object_checked_n6", "main", ["C10", "C14"], ["Parser::get_from_object_checked", "Parser::parse_object_clo"],
+      "every buffer of length <= 6 x every escape-free ASCII key of length <= 2 x every E", stubs=[CUT_SYNTAX, M_WS, M_ONE, M_KEY, CUT_PIT], cost=290),
     H("m_get_object_checked_n7", "main", ["C10", "C14"], ["Parser::get_from_object_checked", "Parser::parse_object_clo"],
-      "every buffer of length <= 7 x every escape-free ASCII key of length <= 2 x every E", stubs=[CUT_SYNTAX, M_WS, M_ONE, M_KEY, CUT_PIT], cost=150),
+      "every buffer of length <= 7 x every escape-free ASCII key of length <= 2 x every E", stubs=[CUT_SYNTAX, M_WS, M_ONE, M_KEY, CUT_PIT], tier=T, cost=400),
     H("m_get_object_checked_n9", "main", ["C10", "C14"], ["Parser::get_from_object_checked", "Parser::parse_object_clo"],
       "every buffer of length <= 9 x every escape-free ASCII key of length <= 2 x every E", stubs=[CUT_SYNTAX, M_WS, M_ONE, M_KEY, CUT_PIT], tier=T, cost=760),
     H("m_array_elem_lazy_n7", "main", ["C12", "C14"], ["Parser::parse_array_elem_lazy (check = true)", "Parser::skip_space_peek"],
@@ -153,16 +155,25 @@ add(
       "every buffer of length <= 6 x every reader index x every recorded error index (usize)", stubs=[CUT_SYNTAX], cost=2),
     H("u_parser_error_clamp_padded_n6", "main", ["C20", "C01"], ["Parser::error (PaddedSliceRead)", "PaddedSliceRead::{index,set_index,as_u8_slice}"],
       "6-byte document + 64-byte padding x every cursor position inside the padded buffer x every recorded error index", stubs=[CUT_SYNTAX], cost=1),
+    H("u_parse_trailing_padded_n6", "main", ["C02", "C01"], ["Parser::parse_trailing (PaddedSliceRead: `x\"x` sentinel)", "Parser::skip_space (padded reader)", "get_nonspace_bits"],
+      "6-byte symbolic document + the 64-byte padding of parse_with_padding x every cursor position 0..=len+2",
+      stubs=[CUT_SYNTAX], exp_gb=6, cost=170, unwindset=[("get_nonspace_bits", None, 66), ("ref_skip_ws", None, 8), ("padded", None, 8), ("::skip_space", -1, 8)]),
+    H("k_padded_reader_ops", "main", ["C01"], ["PaddedSliceRead::{new,set_index,index,remain,peek,at,next_n,backward,eat,slice_unchecked,as_u8_slice}"],
+      "6-byte document + 64-byte padding x every cursor position inside the padded buffer", unwindset=[("padded", None, 8)]),
     H("m_number_visit_raw_n7", "main", ["C03", "C08"], ["Parser::parse_number_visit (copying DOM driver, use_rawnumber)", "Parser::parse_number_inplace (in-place DOM driver, use_rawnumber)"],
       "every buffer of length <= 7 x every start index of a number x both drivers", stubs=[CUT_SYNTAX, M_NUM], cost=110),
 )
 
 # DOM drivers: event streams
 add(
+    H("m_dom_object2_n6", "main", ["C03", "C02"], ["Parser::parse_object2 (copying DOM driver)", "Parser::parse_object_clo"],
+      "every buffer of length <= 6 after '{' x every E; whole event stream compared", stubs=[CUT_SYNTAX, M_WS, M_DOMSTR, M_DOMVAL], cost=190),
+    H("m_dom_object_n6", "main", ["C02", "C03"], ["Parser::parse_object (in-place DOM driver)", "Parser::parse_object_clo"],
+      "every buffer of length <= 6 after '{' x every E; whole event stream compared", stubs=[CUT_SYNTAX, M_WS, M_DOMSTR, M_DOMVAL], cost=190),
     H("m_dom_object2_n7", "main", ["C03", "C02"], ["Parser::parse_object2 (copying DOM driver)", "Parser::parse_object_clo"],
-      "every buffer of length <= 7 after '{' x every E; whole event stream compared", stubs=[CUT_SYNTAX, M_WS, M_DOMSTR, M_DOMVAL], cost=335),
+      "every buffer of length <= 7 after '{' x every E; whole event stream compared", stubs=[CUT_SYNTAX, M_WS, M_DOMSTR, M_DOMVAL], tier=T, cost=345),
     H("m_dom_object_n7", "main", ["C02", "C03"], ["Parser::parse_object (in-place DOM driver)", "Parser::parse_object_clo"],
-      "every buffer of length <= 7 after '{' x every E; whole event stream compared", stubs=[CUT_SYNTAX, M_WS, M_DOMSTR, M_DOMVAL], cost=335),
+      "every buffer of length <= 7 after '{' x every E; whole event stream compared", stubs=[CUT_SYNTAX, M_WS, M_DOMSTR, M_DOMVAL], tier=T, cost=375),
     H("m_dom_object2_n8", "main", ["C02", "C03"], ["Parser::parse_object2 (copying DOM driver)", "Parser::parse_object_clo"],
       "every buffer of length <= 8 after '{' x every E; whole event stream compared", stubs=[CUT_SYNTAX, M_WS, M_DOMSTR, M_DOMVAL], tier=T, cost=355),
     H("m_dom_object_n8", "main", ["C02", "C03"], ["Parser::parse_object (in-place DOM driver)", "Parser::parse_object_clo"],
@@ -216,6 +227,7 @@ add(
       "all four dom kinds x all idx < 2^29 x all len: u32 (complete for the field width)", cost=1),
     H("k_meta_roundtrip_idx_ge_2p29", "main", ["C03", "C01"], ["Meta::pack_dom_node", "Meta::unpack_dom_node"],
       "all idx in [2^29, 2^31) x all len: u32 - the region of known finding F6", expect="known-fail", finding="F6", cost=1),
+    H("k_meta_root_tag", "main", ["C03"], ["Meta::new", "Meta::get_kind", "Meta::unpack_root"], "every 8-aligned address (complete)", cost=1),
     H("k_meta_static_types", "main", ["C03"], ["Meta::new", "Meta::get_type", "Meta::pack_static_str", "Meta::unpack_strlen"],
       "all 9 static type tags, all static string lengths < u32::MAX (complete)", cost=1),
 )
@@ -230,6 +242,8 @@ for _n, _f in _DEPTH:
 add(
     H("m_seq_next_element_n6", "main", ["C02"], ["SeqAccess::next_element_seed", "Deserializer::end_seq", "deserialize_ignored_any"],
       "every buffer of length <= 6 x every start index x first in {true,false} x every E", stubs=[CUT_SYNTAX, M_WS, M_ONE], cost=11),
+    H("m_map_next_entry_n8", "main", ["C02"], ["MapAccess::next_key_seed", "MapAccess::next_value_seed", "MapKey::deserialize_any", "Parser::parse_object_clo"],
+      "every buffer of length <= 8 x every start index x first in {true,false} x every E; escape-free keys", stubs=[CUT_SYNTAX, M_WS, M_ONE, M_KEY], cost=110),
     H("m_end_seq_map_n6", "main", ["C02"], ["Deserializer::end_seq", "Deserializer::end_map", "Parser::parse_array_end"],
       "every buffer of length <= 6 x every start index", stubs=[CUT_SYNTAX, M_WS], cost=4),
     H("m_stream_latch_n5", "main", ["C20"], ["StreamDeserializer::next", "Deserializer::into_stream"],
@@ -290,16 +304,14 @@ add(
     H("u_parse_number_int_len20", "number", ["C07", "C08"], ["sonic_number::parse_number (integer path, 20 digits, overflowing_mul/add cut-over)"],
       "every 20-digit string, with and without '-' (u64::MAX boundary)", stubs=[CUT_PF], cost=120),
     H("u_parse_number_int_len13_20", "number", ["C07", "C08"], ["sonic_number::parse_number (integer path)"],
-      "every decimal digit string of length 13..=20, with and without '-'", stubs=[CUT_PF], tier=T),
+      "every decimal digit string of length 13..=20, with and without '-'", stubs=[CUT_PF], tier=T, cost=530),
     H("u_parse_number_grammar_n7", "number", ["C02", "C07", "C01"], ["sonic_number::parse_number", "parse_number_fraction (scalar branch)", "parse_exponent"],
       "every byte string of length <= 7 starting with '-' or a digit", stubs=[CUT_PF], cost=30),
     H("k_parse_exponent_n8", "number", ["C07", "C01"], ["sonic_number::parse_exponent"], "every buffer of length <= 8", cost=5),
     H("k_float_fast_mul_e1", "number", ["C07"], ["sonic_number::parse_float_fast"], "E = 1, every significand < 2^20", cost=2),
-    H("k_float_fast_mul_e10", "number", ["C07"], ["sonic_number::parse_float_fast"], "E = 10, every significand < 2^20", tier=T),
+    H("k_float_fast_mul_e10", "number", ["C07"], ["sonic_number::parse_float_fast"], "E = 10, every significand < 2^20", tier=T, cost=580),
     H("k_float_fast_div_e3", "number", ["C07"], ["sonic_number::parse_float_fast"], "E = -3, every significand < 2^16",
       stubs=["assumption: IEEE 754 division is correctly rounded"], cost=7),
-    H("k_float_fast_div_e10", "number", ["C07"], ["sonic_number::parse_float_fast"], "E = -10, every significand < 2^16",
-      stubs=["assumption: IEEE 754 division is correctly rounded"], tier=T),
     H("k_decimal_try_add_digit", "number", ["C01", "C07"], ["sonic_number::decimal::Decimal::try_add_digit"], "every digit count 0..=MAX_DIGITS+4 x every digit (complete)", cost=2),
     H("k_decimal_round_6", "number", ["C07"], ["sonic_number::decimal::Decimal::round"],
       "every trimmed decimal of <= 6 significant digits x decimal point in -1..=7 x truncated flag", cost=11),
@@ -346,6 +358,10 @@ for _k in range(1, 10):  # need = 10..16 did not finish within 20 minutes (64-bi
 
 # ---- experimental harnesses: kept in the harness files, runnable with --dev, not part of any claim ----
 EXPERIMENTAL = [
+    H("u_parse_string_inplace_n6", "main", [], ["util::string::parse_string_inplace"], "6-byte symbolic document + real padding, strict", stubs=[MAXEPU8], tier=T, timeout=3600, mem_gb=32, exp_gb=16,
+      unwindset=[("parse_string_inplace", None, 9), ("ref_decode_string", None, 11), ("inplace_body", None, 8)]),
+    H("u_parse_string_inplace_lossy_n6", "main", [], ["util::string::parse_string_inplace"], "6-byte symbolic document + real padding, lossy", stubs=[MAXEPU8], tier=T, timeout=3600, mem_gb=32, exp_gb=16,
+      unwindset=[("parse_string_inplace", None, 9), ("ref_decode_string", None, 11), ("inplace_body", None, 8)]),
     H("u_parse_str_n7", "main", [], ["Parser::parse_str (copying decoder incl. escape branch)"], "every byte string <= 7 after the quote, strict",
       stubs=[CUT_SYNTAX, MAXEPU8, "models: Vec::reserve/push/extend_from_slice -> in place"], tier=T, timeout=5400, mem_gb=32, exp_gb=16,
       unwindset=[("ref_decode_string", None, 9), ("ref_has_backslash", None, 9), ("::parse_string_raw", -1, 9), ("::parse_string_escaped", -1, 9), ("::parse_escaped_char", None, 5),
